@@ -263,6 +263,13 @@ UNDECIDED_SEEDS = {'C01_d': 'wrong multiplication count in a while loop: E2 does
                    'C13_i': 'UTPM.trace as a strided view of a reshape: neither the slice-wise loop nor a whole-array call with evaluable axes - reported as not decided (exit 2)',
                    'C10_g': 'UTPM.tile as one numpy.tile call on the coefficient array: the alignment of reps with the axes is not evaluated - reported as not decided (exit 2); '
                             'since round 7 R-param-used also reports that the rewrite ignores `out`, which is true but not the defect the seed is about',
+                   'C01_q': 'integer powers by square-and-multiply with a parity slip: a while loop over the bits of the exponent, E2 does not model while loops (exit 2); which power comes out is numeric content',
+                   'C01_r': '_exp(scale=): the factor is applied to the zeroth coefficient only - a factor inside a recurrence, formula content',
+                   'C03_r': 'pb_logdet through Jacobi\'s formula without the transpose of the inverse: the side of a transposition of a square matrix',
+                   'C08_r': '_cholesky restructured with tensordot, assignment turned into `-=` on a re-used out buffer: the restructured kernel is outside the idioms of E2 (exit 2, not decided)',
+                   'C10_q': 'UTPM.trace through a strided view of a reshape (unbounded stride wraps for tall matrices): not the slice-wise loop, axes not evaluable (C13.map exit 2)',
+                   'C12_r': 'extract_jacobian / extract_jac_vec read coefficient D-1 through a shared helper default: the extract_* drivers belong to C09 (not applicable)',
+                   'C13_q': 'tril / triu through a numpy.tri mask with a mirrored offset: neither the slice-wise loop nor an evaluable whole-array call (C13.map exit 2)',
                    'C12_h': 'UTPM.shift rewritten with an index array whose mask admits negative (wrapping) indices: value-level index arithmetic on an array, '
                             'outside the affine index domain; shift(s<0) reads higher orders by design and is not a graded kernel'}
 # neutral patches written against an older commit that fire there for a true reason
